@@ -11,6 +11,7 @@ Theorems that do not mention `Generated.tokTable` hold for *every* pattern list.
 import Emboss.Lemmas.TokFile
 import Emboss.Lemmas.TokTable
 import Emboss.Lemmas.TokBoundary
+import Emboss.Lemmas.TokLongest
 import Emboss.Generated.TokTable
 namespace Emboss.Tok
 open Emboss.Regex Emboss.Generated
@@ -197,6 +198,52 @@ symbol, `\\s+`: it consists of `str.isspace` characters only. -/
 theorem C10_gaps_are_whitespace (s : List Char) (n : Nat) (h : IsBest tokTable.pats s n none) :
     (s.take n).all isSpaceChar = true :=
   gap_is_whitespace h
+
+/-- **Backtracking = longest** (DESIGN: `C10_priority_is_longest`), for every one of the 65
+patterns of the regenerated table and every input: what Python's leftmost-greedy
+backtracking `re.match` returns is the greatest length of a match of the pattern's
+declarative language at that position, and it fails only when the language has no match.
+So "longest match of the documented patterns" is meaningful for the code. -/
+theorem C10_priority_is_longest (p : Pat) (hp : p ∈ tokTable.pats) (s : List Char) :
+    (∀ n, matchLen p.re s = .ok n → MatchesLen p.re s n ∧ ∀ m, MatchesLen p.re s m → m ≤ n) ∧
+    (matchLen p.re s = .fail → ∀ m, ¬ MatchesLen p.re s m) := by
+  have := priority_is_longest_all p hp s
+  constructor
+  · intro n hn; rw [hn] at this; exact this
+  · intro hf; rw [hf] at this; exact this
+
+/-- Consequently every token of a tokenization with the regenerated table is the longest
+match of the *documented patterns as languages*, ties to the earlier row: its text is a
+match of a pattern `p` carrying its symbol, no pattern of the table has any match longer
+than the token at that position, and no earlier pattern has one as long. -/
+theorem C10_longest_match_documented (ln : Nat) (line : List Char) (segs : List Seg)
+    (h : Covers tokTable.pats ln line 0 segs) :
+    ∀ t ∈ tokensOf segs, ∃ pre p post, tokTable.pats = pre ++ p :: post ∧ p.sym = some t.sym ∧
+      MatchesLen p.re (line.drop (t.sc - 1)) t.text.length ∧
+      (∀ q ∈ pre, ∀ m, MatchesLen q.re (line.drop (t.sc - 1)) m → m < t.text.length) ∧
+      (∀ q ∈ tokTable.pats, ∀ m, MatchesLen q.re (line.drop (t.sc - 1)) m → m ≤ t.text.length) := by
+  intro t ht
+  obtain ⟨pre, p, post, hp, hs, hm, hpre, hpost⟩ := C10_longest_match _ ln line segs h t ht
+  have key : ∀ q ∈ tokTable.pats, ∀ m, MatchesLen q.re (line.drop (t.sc - 1)) m →
+      ∃ n, matchLen q.re (line.drop (t.sc - 1)) = .ok n ∧ m ≤ n := by
+    intro q hq m hmq
+    have hl := priority_is_longest_all q hq (line.drop (t.sc - 1))
+    cases hr : matchLen q.re (line.drop (t.sc - 1)) with
+    | ok n => rw [hr] at hl; exact ⟨n, rfl, hl.2 m hmq⟩
+    | fail => rw [hr] at hl; exact absurd hmq (hl m)
+    | fuel => rw [hr] at hl; exact hl.elim
+  refine ⟨pre, p, post, hp, hs, matchLen_sound _ _ _ hm, ?_, ?_⟩
+  · intro q hq m hmq
+    obtain ⟨n, hn, hle⟩ := key q (by rw [hp]; simp [hq]) m hmq
+    have := hpre q hq n hn
+    omega
+  · intro q hq m hmq
+    obtain ⟨n, hn, hle⟩ := key q hq m hmq
+    rw [hp, List.mem_append, List.mem_cons] at hq
+    rcases hq with hq | rfl | hq
+    · have := hpre q hq n hn; omega
+    · rw [hm] at hn; cases hn; exact hle
+    · have := hpost q hq n hn; omega
 
 /-! ## Classification of names and numbers (table-specific)
 
